@@ -4,3 +4,6 @@ pub mod name;
 pub mod update;
 pub mod cache;
 pub mod frame;
+pub mod sigref;
+pub mod masterfile;
+pub mod zone;
